@@ -24,7 +24,7 @@ META = ["units", "long_name", "scale", "tag", "note"]
 
 def file_cfg(rng, tier, prop):
     fmt = rng.choice(["NETCDF4", "NETCDF4", "NETCDF3_CLASSIC"])
-    faults = rng.random() < 0.25
+    faults = rng.random() < 0.25 and prop != "C15"
     kinds = ["int", "float"] if fmt.startswith("NETCDF3") else V.LABEL_KINDS
     dims = DIMS[:rng.randint(2, 4)]
     cfg = {"world": "file", "format": fmt, "indexing": rng.choice(["label", "label", "position"]) if prop == "C20" else "label",
@@ -36,7 +36,7 @@ def file_cfg(rng, tier, prop):
            "n_steps": rng.randint(4, 16 if tier == "quick" else 30), "faults": faults,
            "fault_kind": rng.choice(["error", "error", "crash"]), "n_faults": rng.randint(1, 2),
            "sweep": faults and rng.random() < (0.15 if tier == "quick" else 0.5),
-           "explicit_format": rng.random() < 0.3, "c20_rate": {"C19": 0.15, "C20": 0.7}[prop]}
+           "explicit_format": rng.random() < 0.3, "c20_rate": {"C19": 0.15, "C20": 0.7, "C15": 0.3}[prop]}
     return cfg
 
 
